@@ -21,7 +21,12 @@ def main():
     except Exception as e:
         import traceback
         from vf.driver import Obligation
-        ctx.add(Obligation("driver", "inconclusive", "driver", "check crashed: " + traceback.format_exc()[-1500:]))
+        tb = traceback.format_exc()
+        try:
+            open("/var/tmp/vf_last_crash.txt", "w").write(tb)
+        except OSError:
+            pass
+        ctx.add(Obligation("driver", "inconclusive", "driver", "check crashed: " + tb[-1500:]))
     sys.exit(ctx.finish())
 
 
